@@ -40,8 +40,8 @@ CLAIMS = {
                 note="INV_PADS_0 bijectivity and numerical phi values are not decided.",
                 technique="constant-table analysis + dispatch-partition analysis of switchInt/compare chains + guard atoms"),
     "C09": dict(level="proof", design="§5 C09",
-                text="Event assembly (MainEvent::try_from_banks, timestamp and the physics functions they reach): every MIR Assert, panicking std call, explicit panic and loop is discharged as in C01, using constructor-census type invariants and three audited implications (Some-unless-empty, member lookup, table values); detector callees are delegated to C01 (inputs unconstrained there). Reconstruction kernels (avalanches, vertex): the same obligations are collected; undischarged integer/index/loop obligations per function must not exceed a committed census of undecidable sites; result discipline of try_from_banks.",
-                note="Proof level holds for event assembly only. In the kernels the float pipeline (Cholesky/argmin unwraps, partial_cmp, NaN asserts) is a census of undecided sites, and 81 integer/index sites (loop-carried indices, table-shape dependent lookups) are listed as undecidable by this analysis: no panic-freedom claim is made for them.",
+                text="Event assembly (MainEvent::try_from_banks, timestamp and the physics functions they reach): every MIR Assert, panicking std call, explicit panic and loop is discharged as in C01, using constructor-census type invariants and three audited implications (Some-unless-empty, member lookup, table values); detector callees are delegated to C01 (inputs unconstrained there). Reconstruction kernels (avalanches, vertex): the same obligations are collected; the kernel functions that are fully discharged today (committed list) must stay fully discharged, the others are reported as a census of undecided sites; result discipline of try_from_banks.",
+                note="Proof level holds for event assembly only. In the kernels the float pipeline (Cholesky/argmin unwraps, partial_cmp, NaN asserts) is a census of undecided sites, and 81 integer/index sites in 21 kernel functions (loop-carried indices, table-shape dependent lookups, values flowing through local collections) are undecided by this analysis: no panic-freedom claim is made for avalanches()/vertex().",
                 technique="abstract interpretation of MIR (guard atoms + interval/Fourier-Motzkin prover) with constructor-census type invariants; obligation census for the kernels"),
     "C10": dict(level="other", design="§5 C10",
                 text="Dataflow-shape rules on try_from_banks: slot index term = position map of the packet's own (board,channel)/(board,chip,channel); name/payload agreement guards; duplicate guards dominate stores; calibration expression (elem - baseline) * gain after skip(delay) with same-kind lookups at the same position; bank-kind action table; TRG timestamp pass-through.",
